@@ -1049,6 +1049,8 @@ def correspondence(ctx):
         ctx.case('jder-exact', case, nontrivial=True, tag=f'j{j}/{kind}')
         try:
             tab = J.jacobi_sum_clenshaw_der(s, a, b, np.array(xs, dtype=object), j=j)
+            if not all(isinstance(v, (Fraction, int)) for v in np.ravel(tab)):
+                raise TypeError('the result left exact arithmetic (a float dtype is forced somewhere on the path)')
         except Exception as ex:
             tab = f'raised {type(ex).__name__}: {ex}'
         for k, xv in enumerate(xs):
@@ -1185,7 +1187,10 @@ def correspondence(ctx):
             case = {'item': 'fam-exact', 'kind': kind, 'n': n, 'x': [str(v) for v in xs]}
             ctx.case('fam-exact', case, nontrivial=True, tag=kind)
             try:
-                got = [Fraction(v) for v in fn(n, np.array(xs, dtype=object))]
+                got = list(np.ravel(fn(n, np.array(xs, dtype=object))))
+                if not all(isinstance(v, (Fraction, int)) for v in got):
+                    raise TypeError('the result left exact arithmetic (a float dtype is forced somewhere on the path)')
+                got = [Fraction(v) for v in got]
             except Exception as ex:
                 got = f'raised {type(ex).__name__}: {ex}'
             for k, xv in enumerate(xs):
